@@ -5,12 +5,12 @@ CONSTANTS
   Cores = {3}
   Slurm = {0}
   PutVals = {}
-  SetVals = {2}
+  SetVals = {}
   NbVals = {2, 4}
   Starts = {}
   Hows = {"fork"}
-  POps = {"import", "set", "nbget", "nbset", "launch"}
-  COps = {"kernel", "nbget"}
+  POps = {"import", "nbget", "nbset", "launch"}
+  COps = {"nbget"}
   NW = 0
   MaxDepth = 4
   BUG_INHERIT = TRUE
@@ -30,6 +30,7 @@ PROPERTY StopSticky
 PROPERTY DoneIsFinal
 PROPERTY RaiseStops
 PROPERTY FlagPerProcess
+PROPERTY PbpOneThread
 ACTION_CONSTRAINT EmitTransition
 VIEW View
 CHECK_DEADLOCK FALSE
